@@ -2,6 +2,7 @@ package interpreter
 
 import (
 	"fmt"
+	"regexp"
 	"strings"
 
 	"github.com/truora/minidyn/interpreter/language"
@@ -13,8 +14,25 @@ type Language struct {
 	Debug bool
 }
 
+var valuePlaceholderRegex = regexp.MustCompile(":[A-Za-z0-9_]+")
+
+// undefinedValue reports a :value placeholder of the expression that did not come with the request
+func undefinedValue(expression string, attributes map[string]*types.Item) error {
+	for _, placeholder := range valuePlaceholderRegex.FindAllString(expression, -1) {
+		if _, ok := attributes[placeholder]; !ok {
+			return fmt.Errorf("%w: an expression attribute value used in expression is not defined; attribute value: %s", ErrSyntaxError, placeholder)
+		}
+	}
+
+	return nil
+}
+
 // Match evalute the item with given expression and attributes
 func (li *Language) Match(input MatchInput) (bool, error) {
+	if err := undefinedValue(input.Expression, input.Attributes); err != nil {
+		return false, err
+	}
+
 	l := language.NewLexer(input.Expression)
 	p := language.NewParser(l)
 	conditional := p.ParseConditionalExpression()
@@ -72,6 +90,10 @@ func buildAliases(input UpdateInput) map[string]string {
 
 // Update change the item with given expression and attributes
 func (li *Language) Update(input UpdateInput) error {
+	if err := undefinedValue(input.Expression, input.Attributes); err != nil {
+		return err
+	}
+
 	l := language.NewLexer(input.Expression)
 	p := language.NewUpdateParser(l)
 	update := p.ParseUpdateExpression()
